@@ -68,8 +68,24 @@ def check(ctx):
                                      "--seed", ctx.seed, "--threads", 12, "--out", ctx.path("trace.ndjson")])
     log("HARNESS: %s (build %ss)" % (summ, build_s))
     lines = read_lines(ctx.path("trace.ndjson"))
-    nseg, nev, rejects = validate_segments(ctx, "KadStoreTrace.tla", "KadStoreTrace.cfg", lines, mode="prop")
+    # a panic of the code under test is data, not a tool failure: the executions that panicked are reported as
+    # violations and taken out of the traces TLC validates (their recorded state is not a store state)
     violations = []
+    kept = []
+    for seg in split_segments(lines, lambda ln: '"e":"reset"' in ln):
+        # (remove_local_provider's debug_assert for an already expired / evicted local record is part of the pinned
+        # behaviour: the Impl layer predicts it and the Prop layer does not judge it - those lines stay in the trace)
+        hit = next((i for i, ln in enumerate(seg) if '"ret":"panic"' in ln and '"op":"remove_local"' not in ln), None)
+        if hit is None:
+            kept.extend(seg)
+            continue
+        op = json.loads(seg[hit]).get("o", {}).get("op", "?")
+        violations.append({"sig": "store-%s-panic" % op, "what": "the real MemoryStore panicked in %s" % seg[hit][:600],
+                           "replay_obj": {"property": "C17", "rejected_event_index": hit + 1, "segment": [json.loads(x) for x in seg[:hit + 1]]}})
+    if violations:
+        log("%d executions panicked inside the store" % len(violations))
+    lines = kept
+    nseg, nev, rejects = validate_segments(ctx, "KadStoreTrace.tla", "KadStoreTrace.cfg", lines, mode="prop")
     for seg, idx in rejects:
         violations.append({"sig": classify(seg, idx),
                            "what": "real MemoryStore step not allowed by KadStore!PropStep: %s" % seg[idx - 1][:600],
